@@ -135,6 +135,7 @@ let () =
         | "FIO" :: rest -> do_fio rest
         | ["SP"; sk; fr] -> do_sp sk fr
         | _ -> print_string "ERR bad line\nEND\n"
-      end
+      end;
+      flush stdout
     done
   with End_of_file -> ()
